@@ -439,6 +439,10 @@ def corner_programs():
                 "(def (Report (x 0)) (1bad 0)) (when true (report))", "(def (Report (x 99999999999)) (c 1)) (when true (report))"):
         out.append(bad)
         out.append(good)
+        out.append(bad)
+        out.append("(def (cap 10) (volatile vc 3) (Report (x 0))) (when true (:= Report.x (+ cap vc)) (report))")   # declarations BEFORE the block
+        out.append(bad)
+        out.append("(def (cap 10) (volatile vc 3)) (when true (:= Cwnd (+ cap vc)))")                              # no Report block at all
     for outer in OPS16:
         for inn in inner:
             for shape in ("(%s %s 3)" % (outer, inn), "(%s 3 %s)" % (outer, inn), "(%s %s %s)" % (outer, inn, inn)):
